@@ -117,5 +117,6 @@ Record totals := mkTotals {
   t_adv_rows : list amount;
   t_dues : list amount;
   t_cats : list cat_total;
-  t_taxsum : amount                 (* taxes.sum as presented *)
+  t_taxsum : amount;                (* taxes.sum as presented *)
+  t_taxsum_precise : amount         (* unexported precise sum *)
 }.
